@@ -142,16 +142,19 @@ def judge_lookup(vendor, sizes, extra, man, sample, derived=False):
     if derived:
         man, row_order = derive(vendor, man, len(sizes))
         ref = ref_cards(vendor, sizes, extra, row_order)
+    arr = np.array(sample, dtype=int)  # the sample as the numpy array the sampling code produces; the caller keeps using it
     try:
         with warnings.catch_warnings():
             warnings.simplefilter("ignore")
             if vendor == "dominion":
-                cards, order, mph = Dominion.sample_from_manifest(man, list(sample))
+                cards, order, mph = Dominion.sample_from_manifest(man, arr if len(sample) == 1 else list(sample))
             else:
-                cards, order, mph = Hart.sample_from_manifest(man, list(sample))
+                cards, order, mph = Hart.sample_from_manifest(man, arr if len(sample) == 1 else list(sample))
     except Exception as e:  # noqa
         return [(f"C17|{vendor}|sample_from_manifest|exception|{type(e).__name__}", f"{type(e).__name__}: {str(e)[:80]} for sample {list(sample)}")]
     out = []
+    if list(arr) != list(sample):
+        out.append((f"C17|{vendor}|lookup|sample-array-modified", f"sample_from_manifest changed the caller's sample array from {list(sample)} to {list(arr)}: the next use of it looks up other cards"))
     want_ids = []
     for i, s in enumerate(sample):
         r, tab, batch, pos, ph = ref[s]
